@@ -220,6 +220,8 @@ def decode_model(it, recv: VStr, args, kwargs):
         # (object ids are ASCII hex; names were produced by encode): TRUSTED.
         it.path.assume(e(r) == recv.t)
         it.path.assume((z3.Length(r) == 0) == (z3.Length(recv.t) == 0))
+        if enc == "ascii":
+            it.path.assume(uf("is_ascii", STR, BOOL)(r))   # what decodes as ASCII is an ASCII string
         return r
 
     it.path.dropped.add("bytes.decode assumed total (inputs valid in their encoding)")
